@@ -112,6 +112,70 @@ theorem agreeing_files (kw kx : List (String × Rat)) (els : List (String × Rat
     obtain ⟨rfl, rfl⟩ := he
     simp [not_significant_self]
 
+/-- and conversely: every wall the KyG file lists with a U that differs significantly from the computed one gets that value as its override;
+likewise every partition the .tbl lists -/
+theorem wall_override_complete (f : Files) (ws : List WallIn) (w : WallIn) (hw : w ∈ ws) (u : Rat)
+    (hs : significantU u w.computedU = true)
+    (h : (∃ kw kx, f.kyg = some (kw, kx) ∧ lookup w.name kw = some u) ∨ (∃ els, f.tbl = some els ∧ w.interior = true ∧ lookup w.name els = some u)) :
+    (w.id, u) ∈ wallOverrides f ws := by
+  unfold wallOverrides
+  rcases h with ⟨kw, kx, hk, hl⟩ | ⟨els, ht, hi, hl⟩
+  · apply List.mem_append_left
+    simp only [hk, List.mem_filterMap]
+    exact ⟨w, hw, by simp [hl, hs]⟩
+  · apply List.mem_append_right
+    simp only [ht, List.mem_filterMap]
+    exact ⟨w, hw, by simp [hi, hl, hs]⟩
+
+theorem mapM_some_mem {α β} (l : List α) (f : α → Option β) (out : List β) (h : l.mapM f = some out) :
+    ∀ b, b ∈ out ↔ ∃ a ∈ l, f a = some b := by
+  induction l generalizing out with
+  | nil => simp at h; subst h; simp
+  | cons a t ih =>
+    simp only [List.mapM_cons] at h
+    cases ha : f a with
+    | none => simp [ha] at h
+    | some b0 =>
+      cases ht : t.mapM f with
+      | none => simp [ha, ht] at h
+      | some bs =>
+        simp [ha, ht] at h
+        subst h
+        intro b
+        simp only [List.mem_cons]
+        constructor
+        · rintro (rfl | hb)
+          · exact ⟨a, Or.inl rfl, ha⟩
+          · obtain ⟨a', ha', hf⟩ := (ih bs ht b).mp hb
+            exact ⟨a', Or.inr ha', hf⟩
+        · rintro ⟨a', (rfl | ha'), hf⟩
+          · left; rw [ha] at hf; exact (Option.some.inj hf).symm
+          · right; exact (ih bs ht b).mpr ⟨a', ha', hf⟩
+
+/-- **the `extra` list is exactly the walls whose U in the files differs from the computed one** (by more than 0.001), where the U in
+the files is the .tbl value for partitions when a .tbl is given, else the KyG value, else 0 -/
+theorem extra_exact (f : Files) (ws : List WallIn) (l : List String) (h : extraNames f ws = some l) (n : String) :
+    n ∈ l ↔ ∃ w ∈ ws, w.name = n ∧ ∃ u, uFinal f w = some u ∧ significantU u w.computedU = true := by
+  unfold extraNames at h
+  cases hm : ws.mapM (fun w => (uFinal f w).map (fun u => (w, u))) with
+  | none => simp [hm] at h
+  | some ps =>
+    simp only [hm, Option.map_some, Option.some.injEq] at h
+    subst h
+    have key := mapM_some_mem ws (fun w => (uFinal f w).map (fun u => (w, u))) ps hm
+    simp only [List.mem_map, List.mem_filter]
+    constructor
+    · rintro ⟨p, ⟨hp, hs⟩, rfl⟩
+      obtain ⟨w, hw, hf⟩ := (key p).mp hp
+      cases hu : uFinal f w with
+      | none => simp [hu] at hf
+      | some u =>
+        simp only [hu, Option.map_some, Option.some.injEq] at hf
+        subst hf
+        exact ⟨w, hw, rfl, u, hu, hs⟩
+    · rintro ⟨w, hw, rfl, u, hu, hs⟩
+      exact ⟨(w, u), ⟨(key (w, u)).mpr ⟨w, hw, by simp [hu]⟩, hs⟩, rfl⟩
+
 /-- a partition that the .tbl does not list makes the conversion fail (with an error, not a crash: F-C19l) -/
 theorem tbl_missing_partition_rejected (f : Files) (els : List (String × Rat)) (ws : List WallIn) (w : WallIn)
     (ht : f.tbl = some els) (hw : w ∈ ws) (hi : w.interior = true) (hl : lookup w.name els = none) :
